@@ -180,6 +180,21 @@ impl<'a, M: Model> Harness for X2Harness<'a, M> {
                     }
                 }
             }
+            // generic lost-wakeup probe: every epilogue ends in strict quiescence (the connection is polled only when its waker
+            // fired or its transport became ready). Polling it once more by force must not make it write anything - if it does,
+            // whatever made that output due did not wake the connection task, and the peer would have waited for it.
+            if t.panics.is_empty() && t.conn_alive() {
+                t.drive(300);
+                t.catch_up();
+                let before = t.subject_frames().len();
+                t.conn_flag.wake_by_ref_pub();
+                t.drive(50);
+                t.catch_up();
+                let new: Vec<String> = t.subject_frames()[before..].iter().map(|f| format!("{}(stream {})", h2wire::frame::type_name(f.raw.ty), f.raw.stream())).collect();
+                if !new.is_empty() {
+                    vios.push((format!("{}.output-waits-for-forced-poll", self.prop), new.iter().map(|x| x.split('(').next().unwrap_or("").to_string()).collect::<Vec<_>>().join(","), format!("at quiescence nobody had woken the connection task, yet a forced poll made it write {:?}: the operation that made this output due did not wake the connection", new)));
+                }
+            }
         }
         for p in &t.panics {
             vios.push((format!("{}.panic", self.prop), p.lines().next().unwrap_or("").chars().take(80).collect(), format!("panic: {}", p.lines().next().unwrap_or(""))));
@@ -397,6 +412,20 @@ pub fn replay_model<M: Model>(model: &M, prop: &'static str, v: &Value) -> bool 
             println!("  RULE VIOLATED (epilogue): {} {}", r, what);
         }
         vios.extend(ev);
+        // the generic lost-wakeup probe of the search (see X2Harness::run)
+        if t.panics.is_empty() && t.conn_alive() {
+            t.drive(300);
+            t.catch_up();
+            let before = t.subject_frames().len();
+            t.conn_flag.wake_by_ref_pub();
+            t.drive(50);
+            t.catch_up();
+            let new: Vec<String> = t.subject_frames()[before..].iter().map(|f| format!("{}(stream {})", h2wire::frame::type_name(f.raw.ty), f.raw.stream())).collect();
+            if !new.is_empty() {
+                println!("  RULE VIOLATED (forced poll at quiescence): {}.output-waits-for-forced-poll the connection wrote {:?}", prop, new);
+                vios.push((format!("{}.output-waits-for-forced-poll", prop), String::new(), String::new()));
+            }
+        }
     }
     for p in &t.panics {
         println!("  PANIC: {}", p);
